@@ -20,7 +20,7 @@ func init() {
 	register(&core.Rule{ID: "RES-RESTORE", Props: []string{"C01", "C06", "C13"}, Floor: 30,
 		Doc: "every field a resource may write in ReadValue/WriteValue/Index is written by its Abort (or is in the reasoned exception table); snapshot fields Abort restores from are written by Commit or by a section operation",
 		Run: runResRestore})
-	register(&core.Rule{ID: "RES-FORWARD", Props: []string{"C01", "C17"}, Floor: 12,
+	register(&core.Rule{ID: "RES-FORWARD", Props: []string{"C01", "C17", "C07"}, Floor: 12,
 		Doc: "a resource that holds child resources forwards Abort/PreCommit/Commit (and Close) to them; Index records the child it returns in the dirty set",
 		Run: runResForward})
 	register(&core.Rule{ID: "RES-PUBLISH", Props: []string{"C01", "C06"}, Floor: 30,
@@ -85,6 +85,13 @@ func lifecycleCall(info *types.Info, call *ast.CallExpr, iface *types.Interface)
 		return "", nil, false
 	}
 	return fn.Name(), sel.X, true
+}
+
+// conditionalForward: wrappers whose forwarding of a lifecycle method is legitimately conditional, with the boolean field
+// the condition must establish. localShared touches the shared cell only while it holds the manager's lock.
+var conditionalForward = map[string]string{
+	"resources.localShared.Abort":  "hasLock",
+	"resources.localShared.Commit": "hasLock",
 }
 
 // ------------------------------------------------------------------ RES-OWNER
@@ -477,6 +484,56 @@ func runResForward(c *core.Ctx) {
 				}
 			default:
 				c.Ok(key, f.Pos(), "forwards %s to its children", m)
+			}
+			// a single-child wrapper forwards on every path: in its own body, or in a literal (goroutine / deferred) that its body
+			// always reaches. The one accepted condition is the wrapper's own "I hold the child's lock" flag (conditionalForward).
+			if forwards && !coll && (m == "Abort" || m == "PreCommit" || m == "Commit" || m == "Close") {
+				uncond := false
+				why := ""
+				for _, b := range bodiesOf(f) {
+					g := graphOfBody(e, f.Pkg, f, b)
+					isFwd := func(a ast.Node) bool {
+						call, ok := a.(*ast.CallExpr)
+						if !ok {
+							return false
+						}
+						name, _, ok := lifecycleCall(info, call, iface)
+						return ok && name == m
+					}
+					fw := g.FindAtoms(isFwd)
+					if len(fw) == 0 {
+						continue
+					}
+					if okp, _ := g.MustPass(nil, isFwd, nil); okp {
+						// the literal itself must be reached on every path of the declaration body
+						if b.lit == nil {
+							uncond = true
+						} else if at := e.Graph(f).AtomOf(b.lit); at != nil {
+							if okl, _ := e.Graph(f).MustPass(nil, func(a ast.Node) bool { return a == at }, nil); okl {
+								uncond = true
+							}
+						}
+						continue
+					}
+					// conditional: accepted only under the flag listed for this method
+					if flagName, ok := conditionalForward[key]; ok {
+						all := true
+						for _, a := range fw {
+							if !guardedWhereIn(e, info, g, a, func(ex ast.Expr, val bool) bool {
+								fv := an.SelectedField(info, ex)
+								return fv != nil && fv.Name() == flagName && val
+							}) {
+								all = false
+							}
+						}
+						if all {
+							uncond = true
+							why = " (only while " + flagName + ", by design)"
+						}
+					}
+				}
+				c.Check(uncond, key+":on-every-path", f.Pos(), "the child's "+m+" is reached on every path"+why,
+					fmt.Sprintf("%s.%s can return without calling %s on the wrapped resource: whatever the child did in this section (a lock it took on first access, an element written through Index) is never rolled back / committed / released", tk, m, m))
 			}
 		}
 		// Index of a collection holder records the returned child as dirty on every path
